@@ -106,7 +106,8 @@ fn id_tok(t: &str) -> Option<u32> { t.strip_prefix('%')?.parse().ok() }
 /// literal-width context of the reader: ids of int / float types and of values typed by them
 #[derive(Default)]
 struct ReadCtx {
-    types: HashMap<u32, (bool, u32, bool)>, // id -> (is_int, width, signed)
+    types: HashMap<u32, (bool, u32, bool)>, // id -> (is_int, width, signed): the module's declarations wherever they stand (the printer's view)
+    sofar: HashMap<u32, (bool, u32, bool)>, // the same, but only from the lines read so far (the parser's view: it decides the NUMBER OF WORDS)
     sets: HashMap<u32, usize>,              // ext inst set id -> 0 GLSL / 1 OpenCL
 }
 
@@ -114,24 +115,30 @@ struct Reader<'a, 'g> { v: &'a Vocab<'g>, toks: Vec<String>, p: usize, ctx: &'a 
 impl<'a, 'g> Reader<'a, 'g> {
     fn next(&mut self) -> Option<String> { let t = self.toks.get(self.p)?.clone(); self.p += 1; Some(t) }
     fn more(&self) -> bool { self.p < self.toks.len() }
-    fn literal(&mut self, ty: Option<(bool, u32, bool)>, out: &mut Vec<SOp>) -> Option<()> {
+    /// One literal token.  `fmt`: how the printer spelt it (integer signed / unsigned, float; None = raw unsigned bit
+    /// pattern) - taken from the declaration of the type wherever it stands; `words`: how many words the literal
+    /// has - decided, as in the parser, by the declarations that PRECEDE the instruction.
+    fn literal(&mut self, fmt: Option<(bool, u32, bool)>, words: usize, out: &mut Vec<SOp>) -> Option<()> {
         let t = self.next()?;
-        match ty {
-            Some((true, w, signed)) if w == 64 => {
-                let v: u64 = if signed { t.parse::<i64>().ok()? as u64 } else { t.parse::<u64>().ok()? };
-                out.push(SOp { k: "LiteralBit64".into(), w: vec![v as u32, (v >> 32) as u32], s: None });
+        let push = |v: u64, out: &mut Vec<SOp>| -> Option<()> {
+            if words == 2 { out.push(SOp { k: "LiteralBit64".into(), w: vec![v as u32, (v >> 32) as u32], s: None }); }
+            else { out.push(SOp::one("LiteralBit32", v as u32)); }
+            Some(())
+        };
+        match fmt {
+            Some((true, _, _)) | None => {
+                // an integer: negative spellings are two's complement of the literal's own width
+                if let Ok(v) = t.parse::<u64>() { if words == 1 && v > u32::MAX as u64 { return None; } push(v, out) }
+                else { let v = t.parse::<i64>().ok()?; if words == 1 && (v < i32::MIN as i64) { return None; } push(if words == 1 { (v as i32) as u32 as u64 } else { v as u64 }, out) }
             }
-            Some((true, _, signed)) => {
-                let v: u32 = if signed { t.parse::<i32>().ok()? as u32 } else { t.parse::<u32>().ok()? };
-                out.push(SOp::one("LiteralBit32", v));
+            Some((false, _, _)) => {
+                if words == 2 { push(t.parse::<f64>().ok()?.to_bits(), out) } else { push(t.parse::<f32>().ok()?.to_bits() as u64, out) }
             }
-            Some((false, 64, _)) => { let v = t.parse::<f64>().ok()?.to_bits(); out.push(SOp { k: "LiteralBit64".into(), w: vec![v as u32, (v >> 32) as u32], s: None }); }
-            Some((false, _, _)) => out.push(SOp::one("LiteralBit32", t.parse::<f32>().ok()?.to_bits())),
-            None => out.push(SOp::one("LiteralBit32", t.parse::<u32>().ok()?)),
         }
-        Some(())
     }
     fn kind(&mut self, k: &str, out: &mut Vec<SOp>) -> Option<()> {
+        if let Some(base) = k.strip_suffix('*') { while self.more() { self.kind(base, out)?; } return Some(()); }
+        if let Some(base) = k.strip_suffix('?') { if self.more() { self.kind(base, out)?; } return Some(()); }
         match k {
             "IdRef" | "IdScope" | "IdMemorySemantics" => { let t = self.next()?; let id = id_tok(&t)?; if self.first_id.is_none() { self.first_id = Some(id); } out.push(SOp::one(k, id)); }
             "LiteralInteger" | "LiteralFloat" => { let t = self.next()?; out.push(SOp::one("LiteralBit32", t.parse().ok()?)); }
@@ -143,14 +150,14 @@ impl<'a, 'g> Reader<'a, 'g> {
             "LiteralString" => { let t = self.next()?; out.push(SOp { k: k.into(), w: vec![], s: Some(unescape(&t)?) }); }
             "LiteralContextDependentNumber" => {
                 let ty = self.rt.and_then(|t| self.ctx.types.get(&t).cloned());
+                let words = match self.rt.and_then(|t| self.ctx.sofar.get(&t).cloned()) { Some((_, 64, _)) => 2, _ => 1 };
                 // only OpConstant is rendered by its declared type; OpSpecConstant shows the raw bit pattern
-                if self.op == 43 { self.literal(ty, out)?; }
-                else { match ty { Some((_, 64, _)) => self.literal(Some((true, 64, false)), out)?, _ => self.literal(None, out)? } }
+                if self.op == 43 { self.literal(ty, words, out)?; } else { self.literal(None, words, out)?; }
             }
             "PairLiteralIntegerIdRef" => {
                 // OpSwitch case literals are printed as raw unsigned bit patterns
-                let sel = self.first_id.and_then(|s| self.ctx.types.get(&s).cloned());
-                match sel { Some((_, 64, _)) => self.literal(Some((true, 64, false)), out)?, _ => self.literal(None, out)? }
+                let words = match self.first_id.and_then(|s| self.ctx.sofar.get(&s).cloned()) { Some((_, 64, _)) => 2, _ => 1 };
+                self.literal(None, words, out)?;
                 self.kind("IdRef", out)?;
             }
             "PairIdRefLiteralInteger" => { self.kind("IdRef", out)?; self.kind("LiteralInteger", out)?; }
@@ -216,9 +223,13 @@ fn read_line(v: &Vocab, line: &str, ctx: &mut ReadCtx) -> Option<SInst> {
     let inst = SInst { op, rt, rid, ops };
     // vocabulary that later lines depend on
     if let Some(id) = rid {
-        if op == 21 && inst.ops.len() == 2 { ctx.types.insert(id, (true, inst.ops[0].w[0], inst.ops[1].w[0] == 1)); }
-        else if op == 22 && !inst.ops.is_empty() { ctx.types.insert(id, (false, inst.ops[0].w[0], false)); }
+        // (type declarations entered the printer's view in the first pass: the LAST declaration of an id wins there)
+        if op == 21 || op == 22 {}
         else if let Some(t) = rt.and_then(|t| ctx.types.get(&t).cloned()) { if !v.g.insts[&op].name.starts_with("Type") { ctx.types.insert(id, t); } }
+        // the parser's view: declarations and typed values in reading order only
+        if op == 21 && inst.ops.len() == 2 { ctx.sofar.insert(id, (true, inst.ops[0].w[0], inst.ops[1].w[0] == 1)); }
+        else if op == 22 && !inst.ops.is_empty() { ctx.sofar.insert(id, (false, inst.ops[0].w[0], false)); }
+        else if let Some(t) = rt.and_then(|t| ctx.sofar.get(&t).cloned()) { if !v.g.insts[&op].name.starts_with("Type") { ctx.sofar.insert(id, t); } }
         if op == 11 {
             match inst.ops.first().and_then(|o| o.s.as_deref()) { Some(b"GLSL.std.450") => { ctx.sets.insert(id, 0); } Some(b"OpenCL.std") => { ctx.sets.insert(id, 1); } _ => {} }
         }
@@ -376,6 +387,24 @@ pub fn drive(args: &[String]) {
         SInst { op: 43, rt: Some(5), rid: Some(4), ops: vec![SOp::one("LiteralBit32", 0x8000_0000)] },
     ];
     if let Some(m) = load_insts(&mut out, &early) { out.ev(disasm_event(&v, &m, "constants")); }
+    // one-word constants whose type is declared LATER with another width (64, 16, 8 bits, signed and unsigned, float 64 / 16),
+    // and a type id declared twice with different widths: the parser sizes the literal by what it has seen, the
+    // printer looks the type up in the whole module - it must still print a line that reads back
+    for (w, sg, is_int) in [(64u32, 1u32, true), (64, 0, true), (16, 1, true), (8, 1, true), (8, 0, true), (64, 0, false), (16, 0, false)] {
+        let ty = if is_int { SInst { op: 21, rt: None, rid: Some(5), ops: vec![SOp::one("LiteralBit32", w), SOp::one("LiteralBit32", sg)] } }
+                 else { SInst { op: 22, rt: None, rid: Some(5), ops: vec![SOp::one("LiteralBit32", w)] } };
+        let late = vec![
+            SInst { op: 43, rt: Some(5), rid: Some(1), ops: vec![SOp::one("LiteralBit32", 0xffff_fffb)] },
+            SInst { op: 43, rt: Some(5), rid: Some(2), ops: vec![SOp::one("LiteralBit32", 0x0001_00ff)] },
+            SInst { op: 50, rt: Some(5), rid: Some(3), ops: vec![SOp::one("LiteralBit32", 7)] },
+            ty.clone()];
+        if let Some(m) = load_insts(&mut out, &late) { out.ev(disasm_event(&v, &m, "constants")); }
+        let twice = vec![
+            SInst { op: 21, rt: None, rid: Some(5), ops: vec![SOp::one("LiteralBit32", 32), SOp::one("LiteralBit32", 1)] },
+            SInst { op: 43, rt: Some(5), rid: Some(1), ops: vec![SOp::one("LiteralBit32", 0xffff_fffb)] },
+            ty];
+        if let Some(m) = load_insts(&mut out, &twice) { out.ev(disasm_event(&v, &m, "constants")); }
+    }
     // (d) OpExtInst with known / unknown sets and numbers; strings with quotes, backslashes, newlines, non-ASCII
     let mut insts = vec![
         SInst { op: 11, rt: None, rid: Some(1), ops: vec![SOp { k: "LiteralString".into(), w: vec![], s: Some(b"GLSL.std.450".to_vec()) }] },
